@@ -22,7 +22,7 @@ class Scenario(apiworld.ApiWorld):
         self.loop.settle()
         self.t_init = self.loop.time()
         self.net.auto = None                 # from now on the environment resolves connects
-        self.used = {"loss": 0, "edit": 0, "refuse": 0, "adv": 0, "gs": 0, "mute": 0, "cmd": 0, "tick": 0, "acs": 0, "silent": 0, "failopen": 0}
+        self.used = {"loss": 0, "edit": 0, "refuse": 0, "adv": 0, "gs": 0, "mute": 0, "cmd": 0, "tick": 0, "acs": 0, "silent": 0, "failopen": 0, "burst": 0}
         self.notified = []                   # (time, who, id) subscriber calls after init
         self.gs_sent = []                    # times at which the console sent a group/zone status (AT4 poll model)
         self.mute_gs = False
@@ -90,6 +90,8 @@ class Scenario(apiworld.ApiWorld):
                 acts += [("wait", 100.0)]
         if live and self.used["cmd"] < p.get("max_cmd", 0):
             acts.append(("cmd",))
+        if not live and self.used["burst"] < p.get("max_burst", 0):
+            acts.append(("cmd10",))          # the application issues ten commands while the link is down
         if live and self.used["silent"] < p.get("max_silent", 0):
             acts.append(("silent",))          # the console stops answering anything (a refresh stays unanswered)
         return acts
@@ -166,6 +168,12 @@ class Scenario(apiworld.ApiWorld):
         elif op == "silent":
             self.used["silent"] += 1
             c.silent = True
+        elif op == "cmd10":
+            self.used["burst"] += 1
+            import pyairtouch as A
+            ac = sorted(self.at.air_conditioners, key=lambda a: a.ac_id)[0]
+            for i in range(10):
+                self.call(lambda i=i: ac.set_power(A.AcPowerControl.TURN_ON if i % 2 else A.AcPowerControl.TURN_OFF), f"burst{i}")
         elif op == "cmd":
             self.used["cmd"] += 1
             self.call(self.at.check_for_updates, "check_for_updates")
@@ -360,7 +368,8 @@ def run(tier, seed, part=None):
         plans = [({"max_tick": 3, "max_loss": 1, "max_edit": 1, "max_adv": 1, "poll": False}, 6, 0),
                  ({"max_tick": 4, "max_loss": 0, "max_edit": 0, "max_adv": 1, "poll": True}, 6, 0),
                  ({"max_tick": 1, "max_loss": 2, "max_edit": 1, "max_adv": 0, "poll": False, "max_silent": 1, "max_failopen": 1}, 7, 0),
-                 ({"max_tick": 2, "max_loss": 1, "max_edit": 0, "max_adv": 1, "poll": True, "outages": [400.0]}, 6, 0)]
+                 ({"max_tick": 2, "max_loss": 1, "max_edit": 0, "max_adv": 1, "poll": True, "outages": [400.0]}, 6, 0),
+                 ({"max_tick": 1, "max_loss": 1, "max_edit": 1, "max_adv": 1, "poll": False, "max_burst": 1, "outages": [10.0, 31.0]}, 6, 0)]
         cap = 45
     else:
         plans = [({"max_tick": 4, "max_loss": 2, "max_edit": 2, "max_adv": 2, "poll": False, "max_cmd": 1}, 8, 0),
